@@ -413,3 +413,39 @@ class Rng:
 
     def chance(self, num, den):
         return self.below(den) < num
+
+
+def translate(what, outfile):
+    """Step 2 of a check: regenerate coq/gen/<outfile> from the current source / running packages.
+    Returns (ok, log).  The file is rewritten only when its content changes (keeps make incremental)."""
+    exe, err = go_build("translate")
+    if not exe:
+        return False, err
+    rc, o, e = run([exe] + what.split(), timeout=300)
+    if rc != 0 or not o.strip():
+        return False, o + e
+    write_if_changed(os.path.join(COQ, "gen", outfile), o)
+    return True, ""
+
+
+def make_overlay():
+    """Build-time instrumentation without editing /repo: an overlay that (1) adds the verif-tagged hook
+    file to package vm and (2) replaces vm/vm.go by a copy of the CURRENT file with one call inserted at
+    the head of the eval loop.  Returns (overlay_json_path, error)."""
+    import json as _json
+    d = os.path.join(BUILD, "overlay")
+    os.makedirs(d, exist_ok=True)
+    src = open(os.path.join(REPO, "vm", "vm.go")).read()
+    anchor = "for vm.ip < len(vm.activeCode.Instructions) {"
+    if src.count(anchor) != 1:
+        return None, "anchor of the eval loop not found exactly once in vm/vm.go"
+    inst = src.replace(anchor, anchor + "\n\t\tvm.verifTrace()")
+    inst = "//go:build verif\n\n" + inst if False else inst
+    write_if_changed(os.path.join(d, "vm_instrumented.go"), inst)
+    hook = open(os.path.join(VERIF, "hooks", "vm_verif.go.txt")).read()
+    write_if_changed(os.path.join(d, "vm_verif_hook.go"), hook)
+    ov = {"Replace": {os.path.join(REPO, "vm", "vm.go"): os.path.join(d, "vm_instrumented.go"),
+                      os.path.join(REPO, "vm", "zz_verif_hook.go"): os.path.join(d, "vm_verif_hook.go")}}
+    p = os.path.join(d, "overlay.json")
+    write_if_changed(p, _json.dumps(ov, indent=1))
+    return p, ""
